@@ -278,6 +278,7 @@ fn env_type_check_passed(prg: TypedProgram) {
 }
 
 static mut ENV_OUTPUTS: u8 = 0;
+static mut ENV_ACKED_BEFORE_OUTPUT: bool = false;
 static mut ENV_OUTPUT_WAS_ERR: bool = false;
 static mut ENV_PERMITS_TAKEN: u8 = 0;
 static mut ENV_PERMITS_RETURNED: u8 = 0;
@@ -1211,3 +1212,74 @@ cancel_in_state!(c15_cancel_in_validated_without_destination, state_validated(),
 cancel_in_state!(c15_cancel_in_sending_consts_completed_with_destination, state_sending_consts_completed(), true, true);
 cancel_in_state!(c15_cancel_in_running_with_destination, state_running(), true, true);
 // (state SendingConsts: the arm awaits the constants task's oneshot and does not finish under CBMC - outside the claim)
+
+// ------------------------------------------------------------------------------------------ the MPC task's side of a cancellation (C15)
+
+/// C15 - the spawned task when the cancel notification wins: it sends the one Cancelled
+/// notification (if there is a destination) and only THEN acknowledges towards cancel(), exactly
+/// once; cancel() therefore cannot return Ok before the notification is out.
+/// A client that knows the task's acknowledgement Notify: when the Cancelled notification is
+/// sent it records whether the task had already acknowledged towards cancel().
+pub(crate) struct AckClient {
+    ack: Arc<Notify>,
+}
+impl PolicyClient for AckClient {
+    type Error = NoClientErr;
+    async fn validate(&self, _to: usize, _r: ValidateRequest) -> Result<(), NoClientErr> {
+        Ok(())
+    }
+    async fn run(&self, _to: usize, _r: RunRequest) -> Result<(), NoClientErr> {
+        Ok(())
+    }
+    async fn consts(&self, _to: usize, _r: ConstsRequest) -> Result<(), NoClientErr> {
+        Ok(())
+    }
+    async fn msg(&self, _to: usize, _r: MpcMsg) -> Result<(), NoClientErr> {
+        Ok(())
+    }
+    fn output(&self, to: url::Url, r: Result<Literal, OutputError>) -> impl std::future::Future<Output = Result<(), NoClientErr>> + Send {
+        unsafe {
+            ENV_OUTPUTS += 1;
+            ENV_OUTPUT_WAS_ERR = r.is_err();
+            if self.ack.notified().env_try().is_some() {
+                ENV_ACKED_BEFORE_OUTPUT = true;
+                self.ack.notify_one();
+            }
+        }
+        std::mem::forget((to, r));
+        std::future::ready(Ok(()))
+    }
+}
+/// the part of the task's Channel the arm uses (the real one also holds the tokio receivers)
+pub(crate) struct EnvChannel {
+    client: AckClient,
+}
+
+macro_rules! task_cancel_arm {
+    ($name:ident, $has_out:expr) => {
+        #[kani::proof]
+        #[kani::unwind(5)]
+        #[kani::stub(std::fmt::format, no_format)]
+        #[kani::stub(std::collections::hash_map::RandomState::new, env_random_state)]
+        fn $name() {
+            let cancel = Arc::new(Notify::new());
+            let cancelled = Arc::new(Notify::new());
+            reset_answers();
+            unsafe {
+                ENV_ACKED_BEFORE_OUTPUT = false;
+            }
+            seg_sc_task_cancel_arm(EnvChannel { client: AckClient { ack: Arc::clone(&cancelled) } }, policy_with_output($has_out), &cancel, &cancelled);
+            let (outputs, out_err, early) = unsafe { (ENV_OUTPUTS, ENV_OUTPUT_WAS_ERR, ENV_ACKED_BEFORE_OUTPUT) };
+            assert!(outputs == $has_out as u8 && (!$has_out || out_err), "C15:task:destination-is-sent-exactly-one-cancelled-notification-if-there-is-one");
+            assert!(!early, "C15:task:acknowledges-only-after-the-notification-was-sent");
+            let acked = cancelled.notified().env_try().is_some();
+            assert!(acked, "C15:task:acknowledges-towards-cancel");
+            let twice = cancelled.notified().env_try().is_some();
+            assert!(!twice, "C15:task:acknowledges-once");
+            kani::cover!(true, "reachable");
+            std::mem::forget((cancel, cancelled));
+        }
+    };
+}
+task_cancel_arm!(c15_task_cancel_arm_with_destination, true);
+task_cancel_arm!(c15_task_cancel_arm_without_destination, false);
